@@ -1,6 +1,7 @@
 package compsim
 
 import (
+	"bytes"
 	"context"
 	"fmt"
 	"time"
@@ -15,27 +16,29 @@ import (
 // C18: chain exchange admission, retrieval by key, retention of wanted chains, pruning.
 
 type cxInst struct {
-	wantedKeys map[gpbft.ECChainKey]bool         // keys that count against the wanted capacity
+	wantedKeys map[gpbft.ECChainKey]bool           // keys that count against the wanted capacity
 	supplied   map[gpbft.ECChainKey]*gpbft.ECChain // wanted keys whose chain the node has been given
 	overflow   bool
 }
 
 type c18 struct {
 	*env
-	cx        *chainexchange.PubSubChainExchange
-	clk       *clock.Mock
-	progress  gpbft.InstanceProgress
-	lookahead uint64
-	maxAge    time.Duration
+	cx         *chainexchange.PubSubChainExchange
+	clk        *clock.Mock
+	progress   gpbft.InstanceProgress
+	lookahead  uint64
+	maxAge     time.Duration
 	capW, capD int
-	inst      map[uint64]*cxInst
-	pruned    uint64
-	bases     map[uint64]*gpbft.TipSet
-	past      map[uint64][]*gpbft.ECChain // chains admitted earlier, per instance (for re-broadcasts)
-	notified  int
+	inst       map[uint64]*cxInst
+	pruned     uint64
+	bases      map[uint64]*gpbft.TipSet
+	past       map[uint64][]*gpbft.ECChain // chains admitted earlier, per instance (for re-broadcasts)
+	notified   int
 }
 
-func (s *c18) NotifyChainDiscovered(_ context.Context, instance uint64, chain *gpbft.ECChain) { s.notified++ }
+func (s *c18) NotifyChainDiscovered(_ context.Context, instance uint64, chain *gpbft.ECChain) {
+	s.notified++
+}
 
 func (s *c18) at(k uint64) *cxInst {
 	in := s.inst[k]
@@ -77,11 +80,22 @@ func prefixes(c *gpbft.ECChain) []*gpbft.ECChain {
 }
 
 func sameChain(a, b *gpbft.ECChain) bool {
-	if a.Len() != b.Len() {
+	// own comparison (not the repository's Equal/Eq helpers, which a change under test may alter)
+	if a == nil || b == nil {
+		return (a == nil || len(a.TipSets) == 0) && (b == nil || len(b.TipSets) == 0)
+	}
+	if len(a.TipSets) != len(b.TipSets) {
 		return false
 	}
 	for i := range a.TipSets {
-		if !a.TipSets[i].Equal(b.TipSets[i]) {
+		x, y := a.TipSets[i], b.TipSets[i]
+		if x == nil || y == nil {
+			if x != y {
+				return false
+			}
+			continue
+		}
+		if x.Epoch != y.Epoch || !bytes.Equal(x.Key, y.Key) || x.PowerTable != y.PowerTable || x.Commitments != y.Commitments {
 			return false
 		}
 	}
